@@ -98,16 +98,17 @@ func (c *client) clientID() uint64 {
 
 // openParams describes one OPEN request.
 type openParams struct {
-	ownerKey string
-	name     string // CLAIM_NULL and the named delegation claims
-	fh       fhRef
-	access   uint32
-	deny     uint32
-	how      int
-	claim    int
-	seqDelta uint32 // added to the correct open-owner seqid (4.0)
-	clientID *uint64
-	variant  string
+	ownerKey  string
+	name      string // CLAIM_NULL and the named delegation claims
+	fh        fhRef
+	access    uint32
+	deny      uint32
+	how       int
+	claim     int
+	delegType int    // CLAIM_PREVIOUS: index into delegTypes
+	seqDelta  uint32 // added to the correct open-owner seqid (4.0)
+	clientID  *uint64
+	variant   string
 }
 
 // open sends OPEN (+GETFH) and applies its outcome to the model.
@@ -122,6 +123,8 @@ func (h *hist) open(c *client, p openParams) *openState {
 	seq := uint32(0)
 	txStarted := false
 	reinit := false
+	refusedAfterOpen := false // the server opens the leaf before it can refuse the reclaim
+	hasOpen := false
 	predict := func() nfsv4.Nfsstat4 {
 		if c.ver == 0 {
 			if c.cur == nil || (p.clientID != nil && *p.clientID != c.cur.clientID) {
@@ -203,8 +206,12 @@ func (h *hist) open(c *client, p openParams) *openState {
 			if o != nil && !reinit {
 				_, has = o.opens[p.fh.leaf]
 			}
+			hasOpen = has
+			// A reclaim is only honoured for a file this open-owner
+			// has open, and this server never hands out delegations.
+			reclaimable := has && (p.claim != claimPrevious || p.delegType == 0)
 			if c.ver == 0 {
-				if !has {
+				if !reclaimable {
 					return nfsv4.NFS4ERR_RECLAIM_BAD
 				}
 				if noExisting {
@@ -218,8 +225,9 @@ func (h *hist) open(c *client, p openParams) *openState {
 			if st := openSelf(p.fh.leaf); st != nfsv4.NFS4_OK {
 				return st
 			}
-			if p.claim == claimPrevious && !has {
+			if p.claim == claimPrevious && !reclaimable {
 				target = nil
+				refusedAfterOpen = true
 				return nfsv4.NFS4ERR_RECLAIM_BAD
 			}
 			return nfsv4.NFS4_OK
@@ -252,6 +260,9 @@ func (h *hist) open(c *client, p openParams) *openState {
 		clientID = *p.clientID
 	}
 	desc := fmt.Sprintf("OPEN owner=%s %s name=%q fh=%s access=%s deny=%d how=%s seq=%d (%s)", p.ownerKey, claimNames[p.claim], p.name, p.fh, accName(p.access), p.deny, howNames[p.how], seq, p.variant)
+	if p.claim == claimPrevious {
+		desc += " delegate_type=" + delegNames[p.delegType]
+	}
 	rr := h.send(c, desc, p.fh, 0,
 		&nfsv4.NfsArgop4_OP_OPEN{Opopen: nfsv4.Open4args{
 			Seqid:       seq,
@@ -259,7 +270,7 @@ func (h *hist) open(c *client, p openParams) *openState {
 			ShareDeny:   p.deny,
 			Owner:       nfsv4.OpenOwner4{Clientid: clientID, Owner: []byte(p.ownerKey)},
 			Openhow:     buildOpenhow(p.how),
-			Claim:       buildClaim(p.claim, p.name),
+			Claim:       buildClaim(p.claim, p.name, p.delegType),
 		}},
 		&nfsv4.NfsArgop4_OP_GETFH{},
 	)
@@ -287,11 +298,22 @@ func (h *hist) open(c *client, p openParams) *openState {
 		}
 	}
 	if rr.st != nfsv4.NFS4_OK {
-		if target != nil && want[0] == nfsv4.NFS4_OK {
-			// Prediction said success; nothing to apply.
-		}
-		if rr.st == nfsv4.NFS4ERR_IO && p.fh.kind != 0 {
-			// The injected fault was consumed by the leaf itself.
+		if rr.st == nfsv4.NFS4ERR_RECLAIM_BAD && want[0] == nfsv4.NFS4ERR_RECLAIM_BAD && p.claim == claimPrevious {
+			// The refused reclaim must leave nothing behind: the
+			// balance and count oracles that run after this step
+			// judge that (in 4.1 the leaf was opened and must have
+			// been closed again).
+			switch {
+			case p.delegType != 0 && hasOpen:
+				h.sit("reclaim-with-delegation-refused-while-open")
+			case p.delegType != 0:
+				h.sit("reclaim-with-delegation-refused-while-not-open")
+			default:
+				h.sit("reclaim-refused-while-not-open")
+			}
+			if refusedAfterOpen {
+				h.sit("reclaim-refused-after-leaf-was-opened")
+			}
 		}
 		return nil
 	}
@@ -950,7 +972,10 @@ func (h *hist) releaseLockOwner(c *client, loKey string, variant string) {
 			want = nfsv4.NFS4ERR_LOCKS_HELD
 		}
 	}
-	if want == nfsv4.NFS4_OK && lo != nil {
+	if (want == nfsv4.NFS4_OK || uncertain) && lo != nil {
+		// The request may succeed, in which case the server drops
+		// the access the lock states cloned: their entitlement ends
+		// when the request is sent, not when the reply arrives.
 		for _, ls := range lo.states {
 			ls.setHeld(0)
 		}
